@@ -220,21 +220,50 @@ def r02_3(ctx):
     # SimpleShape._contains_jordan: every sampled point is tested with the caller's flag (abstract run, see R03.4)
     from rules import C03
     C03.contains_jordan_world(ctx, out, ("flag",))
-    # the public wrappers hand the flag on
-    for name, inner, params in (("contains_point", "_contains_point", ["point", "boundary"]),
-                                ("contains_jordan", "_contains_jordan", ["jordan", "boundary"])):
+    # the public wrappers answer exactly what the class-specific query answers for the same (object, flag): abstract
+    # run (W) on a shape whose boundary curves have control points that are *not* on the curve (a query point equal to
+    # such a control point must not be short-cut to "on the boundary")
+    from rules.C16 import PV, point2d
+    for name, inner in (("contains_point", "_contains_point"), ("contains_jordan", "_contains_jordan")):
         fn = ctx.fn(f"shape.DefinedShape.{name}")
-        defs = pat.local_defs(fn)
-        rets = [r for r in ast.walk(fn.node) if isinstance(r, ast.Return)]
-        good = False
-        for r in rets:
-            c = r.value
-            if isinstance(c, ast.Call) and isinstance(c.func, ast.Attribute) and c.func.attr == inner \
-                    and pat.is_name(c.func.value, fn.params[0]):
-                got = [pat.param_origin(fn, a, defs) for a in c.args]
-                good = got == params
-        (out.ok if good else out.bad)(fn.qname, f"returns self.{inner}({', '.join(params)})" if good else
-                                      f"does not return self.{inner}({', '.join(params)})", where=fn.where())
+        ctrl = PV(Fr(1), Fr(1))                      # interior control point of a quadratic arc: outside the disk
+        curve = Obj("J", vertices=(PV(Fr(1), Fr(0)), ctrl, PV(Fr(0), Fr(1))), segments=(), kind="JordanCurve")
+        verdict = None
+        for flag in (True, False):
+            for label, arg in (("a point equal to a control point that is not on the curve", PV(Fr(1), Fr(1))),
+                               ("an ordinary point", PV(Fr(1, 3), Fr(1, 5)))) if name == "contains_point" else \
+                    (("a curve", Obj("K", vertices=(), segments=(), kind="JordanCurve")),):
+                S = Obj("S", jordans=(curve,), subshapes=(), kind="SimpleShape")
+                asked = []
+
+                def hook(rn, ev, call, cname, recv, args, kwargs):
+                    if cname == "isinstance":
+                        k = getattr(args[0], "kind", None) if isinstance(args[0], Obj) else None
+                        if k is None:
+                            return isinstance(args[0], bool) if U(call.args[1]) == "bool" else True
+                        return any(n in ctx.model.mro(k) for n in isinstance_names(call, args))
+                    if cname == "Point2D":
+                        return point2d(*args)
+                    if cname == inner and recv is S:
+                        asked.append((args, kwargs))
+                        return "ANSWER"
+                    return NotImplemented
+                try:
+                    got = Runner(ctx, set(), hook, asserts=True).call_fn(fn, [S, arg, flag])
+                except (Undecided, Raised) as ex:
+                    verdict = verdict or ("undecided", f"{label}, boundary={flag}: {ex}")
+                    continue
+                fwd = asked and len(asked[0][0]) >= 1 and (asked[0][0][0] == arg or asked[0][0][0] is arg) and \
+                    ((len(asked[0][0]) > 1 and asked[0][0][1] is flag) or asked[0][1].get("boundary") is flag)
+                if got != "ANSWER" or not fwd:
+                    verdict = ("bad", f"{label}, boundary={flag}: returns {got!r}" + ("" if fwd else
+                               f"; self.{inner} received {asked[:1]}"))
+        if verdict is None:
+            out.ok(fn.qname, f"returns self.{inner}(object, boundary) unchanged", where=fn.where())
+        elif verdict[0] == "undecided":
+            out.undecided(fn.qname, verdict[1], where=fn.where())
+        else:
+            out.bad(fn.qname, f"does not return self.{inner}(object, boundary)", where=fn.where(), detail=verdict[1])
     return out
 
 
